@@ -188,11 +188,16 @@ def _parse_body(r, body):
     r.status = "pass"
 
 
+def repo_sub(cls):
+    """crash-class and functional_rel harnesses are compiled with the workspace crates' debug assertions off"""
+    return "repo_rel" if cls in ("crash", "functional_rel") else "repo"
+
+
 def kani_cmd(h_list, target_dir, cls, extra=None):
     cmd = ["cargo", "kani", "-Z", "stubbing", "-Z", "unstable-options", "--exact", "--target-dir", target_dir]
     for h in h_list:
         cmd += ["--harness", h.fq]
-    if cls == "functional":
+    if cls.startswith("functional"):
         cmd += FUNC_FLAGS
     to = max(h.timeout for h in h_list)
     cmd += ["--harness-timeout", "%ds" % to]
@@ -201,9 +206,9 @@ def kani_cmd(h_list, target_dir, cls, extra=None):
     return cmd
 
 
-def run_group(repo_dir, crate, h_list, target_dir, cls, logpath, extra=None):
+def run_group(repo_dir, crate, h_list, target_dir, cls, logpath, extra=None, mem_extra=0):
     """One `cargo kani` invocation for several harnesses of the same crate and class."""
-    mem = max(h.mem for h in h_list)
+    mem = max(h.mem for h in h_list) * (3 if mem_extra else 1) + mem_extra
     cmd = kani_cmd(h_list, target_dir, cls, extra)
     total_to = sum(h.timeout for h in h_list) + 600
     t0 = time.time()
@@ -211,7 +216,7 @@ def run_group(repo_dir, crate, h_list, target_dir, cls, logpath, extra=None):
         lf.write("# " + " ".join(cmd) + "\n")
         lf.flush()
         p = subprocess.Popen(cmd, cwd=os.path.join(repo_dir, crate), env=stage.kani_env(), stdout=lf,
-                             stderr=subprocess.STDOUT, preexec_fn=_limit(max(mem, 10)))
+                             stderr=subprocess.STDOUT, preexec_fn=_limit(max(mem, 8)))
         try:
             p.wait(timeout=total_to)
         except subprocess.TimeoutExpired:
@@ -271,14 +276,14 @@ def run_all(scratch, harnesses, seed=0, max_parallel=None, mem_budget_gb=48, log
     running = [0]
 
     def worker(idx, crate, cls, g):
-        need = max(max(h.mem for h in g), 10)
+        need = max(max(h.mem for h in g), 8)
         with cond:
             while running[0] >= max_parallel or (sem_mem[0] < need and running[0] > 0):
                 cond.wait()
             running[0] += 1
             sem_mem[0] -= need
         try:
-            repo_dir = os.path.join(scratch, "repo_rel" if cls == "crash" else "repo")
+            repo_dir = os.path.join(scratch, repo_sub(cls))
             td = os.path.join(scratch, "t%d" % idx)
             stage.fresh_target(td)
             logpath = os.path.join(scratch, "group%d.log" % idx)
